@@ -135,6 +135,11 @@ fn alpha_rules() -> Vec<(String, String)> {
     for (x, m) in [("V", "αlong"), ("[]", "αoverlong"), ("C", "αlong"), ("V", "αlong, βoverlong"), ("[]", "αlong, βoverlong"), ("V", "αnasal"), ("[]", "αvoice"), ("V", "αlong, βnasal")] {
         v.push((if x == "[]" { format!("[{}]=1 > 1:[{}]", m, m) } else { format!("{}:[{}]=1 > 1:[{}]", x, m, m) }, "alpha-l-var".to_string()));
     }
+    // the inverted form as the FIRST (binding) occurrence: `-α` read from the segment, `-α` written back
+    for m in ["-αlong", "-αoverlong", "αlong, -βoverlong", "-αlong, -βoverlong", "-αnasal, -βlong"] {
+        v.push((format!("[{}] > [{}]", m, m), "alpha-l-inv".to_string()));
+        v.push((format!("V:[{}]=1 > 1:[{}]", m, m), "alpha-l-inv".to_string()));
+    }
     for m in ["αstress", "αstress, βsec.stress"] { v.push((format!("%:[{}]=1 > 1:[{}]", m, m), if m == "αstress" { "alpha-stress-alone".to_string() } else { "alpha-stress-pair".to_string() })); }
     v
 }
